@@ -209,6 +209,13 @@ Definition strtoks (p : strp) : list token :=
   | Some (_, name) => [TName name; p_lparen; TStr (sp_bytes p) (sp_s p); p_rparen]
   end.
 
+(** the subclass wrapper of a string is printed as a name (never as a comment) *)
+Definition wrap_ok (p : strp) : Prop :=
+  match sp_wrap p with
+  | None => True
+  | Some (t, name) => tok_of t name = TName name /\ t <> 14%N
+  end.
+
 Inductive DT : doc -> list token -> Prop :=
 | DT_nil : DT Nil []
 | DT_hard : DT HardLine []
@@ -223,7 +230,7 @@ Inductive DT : doc -> list token -> Prop :=
 | DT_comment d : DT (Annot (ATok 14) d) []
 | DT_tok t s : t <> 14%N -> DT (Annot (ATok t) (Text s)) [tok_of t s]
 | DT_acomment c d ts : DT d ts -> DT (Annot (AComment c) d) ts
-| DT_str p : DT (CtxS p) (strtoks p)
+| DT_str p : wrap_ok p -> DT (CtxS p) (strtoks p)
 with DTL : list doc -> list token -> Prop :=
 | DTL_nil : DTL [] []
 | DTL_cons d l a b : DT d a -> DTL l b -> DTL (d :: l) (a ++ b).
